@@ -7,6 +7,7 @@
   `supported`, `canonical`, `defaults`, `particles`) is in Lemmas/C16.lean.
 -/
 import AbacusVerif.Lemmas.C16
+import AbacusVerif.Lemmas.C16Values
 
 namespace AbacusVerif.ReadAsdf
 open AbacusVerif
@@ -260,5 +261,282 @@ theorem read_spec (f : FileDesc) (k : RawKey) (l : List Col) (lp lv : Option Boo
     rw [hres]
     simp [FileDesc.has, hk, ht]
   · rw [hrows]; cases k <;> rfl
+
+
+/-! ### column values (Model/C16Values.lean): the C04 / C15 model decoders applied to the raw column -/
+
+/-- **values_are_direct_decoding.**  Whenever the table is built (any raw column name, any `load`, any header
+values, any float rounding `cast`), the direct call of the model decoder on the raw column with *all* outputs
+requested and freshly allocated (`unpack_rvint(data, box)`, `unpack_pack9(data, box, velz)`,
+`unpack_pids(data, box, ppd, pid=True, …)`, plus the raw column as `aux` for PID files) succeeds as well, names each
+column once, and every loadable column of the table — name and complete value list, after the `[:nread]`
+truncation — is one of its columns. -/
+theorem values_are_direct_decoding (cn : ColName) (raw : Raw) (load : List Col) (h : HdrVals) (cast : Rat → Rat)
+    (cols : List Column) (hok : assembleV cn raw load h cast = .ok cols) :
+    ∃ all, directAll cn raw h cast = .ok all ∧ (all.map Prod.fst).Nodup ∧
+      ∀ c v, (c, v) ∈ cols → c ∈ loadable cn → (c, v) ∈ all := by
+  cases raw with
+  | rvint rows =>
+    cases cn with
+    | known k =>
+      cases k with
+      | rvint =>
+        refine ⟨_, directAll_rvint rows h cast, by simp, ?_⟩
+        intro c v hm hl
+        exact direct_rvint rows load h cast cols hok c v hm (by simpa [loadable, ColName.isRV] using hl)
+      | pack9 => simp [assembleV] at hok
+      | packedpid => simp [assembleV] at hok
+      | pid => simp [assembleV] at hok
+    | other b => cases b <;> simp [assembleV] at hok
+  | pack9 recs =>
+    cases cn with
+    | known k =>
+      cases k with
+      | pack9 =>
+        obtain ⟨all, h1, h2, h3⟩ := direct_pack9 recs load h cast cols hok
+        refine ⟨all, h1, by rw [h2]; decide, ?_⟩
+        intro c v hm hl
+        exact h3 c v hm (by simpa [loadable, ColName.isRV] using hl)
+      | rvint => simp [assembleV] at hok
+      | packedpid => simp [assembleV] at hok
+      | pid => simp [assembleV] at hok
+    | other b => cases b <;> simp [assembleV] at hok
+  | pids packed =>
+    by_cases hcn : cn.hasPid = true
+    · obtain ⟨P, h1, h2⟩ := direct_pids cn hcn packed load h cast cols hok
+      refine ⟨_, h1, by simp [pidCols, optCol, allPidCols], ?_⟩
+      intro c v hm hl
+      have hrv : cn.isRV = false := by
+        cases cn with
+        | known k => cases k <;> simp [ColName.hasPid] at hcn <;> rfl
+        | other b => rfl
+      have hl' : c ∈ [Col.pid, .lagr_pos, .tagged, .density, .lagr_idx, .aux] := by
+        simpa [loadable, hrv, hcn] using hl
+      refine h2 c v hm ?_ ?_ <;> (intro hc; subst hc; simp at hl')
+    · cases cn with
+      | known k => cases k <;> simp [ColName.hasPid] at hcn <;> simp [assembleV, ColName.hasPid] at hok
+      | other b => cases b <;> simp [ColName.hasPid] at hcn; simp [assembleV, ColName.hasPid] at hok
+
+/-- **values_independent_of_selection.**  For any two requests on the same raw column that both produce the loadable
+column `c`, the value list of `c` is the same — whatever else was requested alongside. -/
+theorem values_independent_of_selection (cn : ColName) (raw : Raw) (l1 l2 : List Col) (h : HdrVals)
+    (cast : Rat → Rat) (cols1 cols2 : List Column)
+    (h1 : assembleV cn raw l1 h cast = .ok cols1) (h2 : assembleV cn raw l2 h cast = .ok cols2)
+    (c : Col) (v1 v2 : List Cell) (m1 : (c, v1) ∈ cols1) (m2 : (c, v2) ∈ cols2) (hl : c ∈ loadable cn) :
+    v1 = v2 := by
+  obtain ⟨all, ha, hnd, hin⟩ := values_are_direct_decoding cn raw l1 h cast cols1 h1
+  obtain ⟨all', ha', -, hin'⟩ := values_are_direct_decoding cn raw l2 h cast cols2 h2
+  rw [ha] at ha'
+  cases ha'
+  have a1 := hin c v1 m1 hl
+  have a2 := hin' c v2 m2 hl
+  -- the names of `all` are pairwise distinct
+  clear hin hin' ha
+  induction all with
+  | nil => cases a1
+  | cons e rest ih =>
+    simp only [List.map_cons, List.nodup_cons] at hnd
+    rcases List.mem_cons.mp a1 with rfl | r1
+    · rcases List.mem_cons.mp a2 with e2 | r2
+      · exact (Prod.mk.inj e2).2.symm ▸ rfl
+      · exact absurd (List.mem_map_of_mem (f := Prod.fst) r2) hnd.1
+    · rcases List.mem_cons.mp a2 with rfl | r2
+      · exact absurd (List.mem_map_of_mem (f := Prod.fst) r1) hnd.1
+      · exact ih hnd.2 r1 r2
+
+/-- The raw pass-through: a PID file's table has the column `aux` iff it was requested, and then it is the complete,
+unmodified raw column. -/
+theorem aux_passthrough (cn : ColName) (hcn : cn.hasPid = true) (packed : List (BitVec 64)) (load : List Col)
+    (h : HdrVals) (cast : Rat → Rat) (cols : List Column)
+    (hok : assembleV cn (.pids packed) load h cast = .ok cols) :
+    (Col.aux ∈ load → (Col.aux, packed.map Cell.raw64) ∈ cols) ∧
+    (∀ v, (Col.aux, v) ∈ cols → Col.aux ∈ load ∧ v = packed.map Cell.raw64) := by
+  rw [assembleV_pids cn hcn] at hok
+  cases hq : Bitpacked.ppdOf (some ((rhe h.ppd : Int) : Rat)) with
+  | none => rw [hq] at hok; cases hok
+  | some P =>
+    rw [hq] at hok
+    by_cases hP : P = 0
+    · simp [hP] at hok
+    · simp only [hP, if_false] at hok
+      cases hok
+      constructor
+      · intro ha
+        refine (mem_truncate _ _ _ _).mpr ⟨packed.map .raw64, ?_, by simp⟩
+        simp [mem_optCol, ha]
+      · intro v hm
+        obtain ⟨v', hm', rfl⟩ := (mem_truncate _ _ _ _).mp hm
+        simp only [List.mem_append, mem_optCol] at hm'
+        rcases hm' with ((⟨_, hc, _⟩ | ⟨_, hc, _⟩) | ⟨ha, _, rfl⟩) | hm'
+        · cases hc
+        · cases hc
+        · exact ⟨ha, by simp⟩
+        · simp only [pidCols, List.mem_append, mem_optCol] at hm'
+          rcases hm' with (((⟨_, hc, _⟩ | ⟨_, hc, _⟩) | ⟨_, hc, _⟩) | ⟨_, hc, _⟩) | ⟨_, hc, _⟩ <;> cases hc
+
+/-- The metadata rule, for both models: `SubsampleFraction` is added exactly for AbacusSummit light cones, whatever
+is read or requested. -/
+theorem subsample_rule (f : FileData) (cast : Rat → Rat) (colname : Option ColName) (load : Option (List Col))
+    (lp lv : Option Bool) :
+    (∀ o, readAsdfV f cast colname load lp lv = .ok o → o.addsSubsample = (f.lightcone && f.summit)) ∧
+    (∀ o, readAsdf f.toDesc colname load lp lv = .ok o → o.addsSubsample = (f.lightcone && f.summit)) := by
+  constructor
+  · intro o ho
+    simp only [readAsdfV, bind, Except.bind] at ho
+    cases hd : detect f.toDesc.present colname with
+    | error e => rw [hd] at ho; cases ho
+    | ok cn =>
+      rw [hd] at ho
+      simp only at ho
+      cases hr : f.raw cn with
+      | none => rw [hr] at ho; cases ho
+      | some raw =>
+        rw [hr] at ho
+        simp only at ho
+        cases ha : assembleV cn raw (resolve cn load lp lv).1 f.hdr cast with
+        | error e => rw [ha] at ho; cases ho
+        | ok cols => rw [ha] at ho; cases ho; rfl
+  · intro o ho
+    simp only [readAsdf, bind, Except.bind] at ho
+    cases hd : detect f.toDesc.present colname with
+    | error e => rw [hd] at ho; cases ho
+    | ok cn =>
+      rw [hd] at ho
+      simp only at ho
+      split at ho
+      · cases ho
+      · cases ha : assemble cn (resolve cn load lp lv).1 (f.toDesc.len cn) f.toDesc.npart with
+        | error e => rw [ha] at ho; cases ho
+        | ok t => rw [ha] at ho; cases ho; rfl
+
+/-- **read_values_independent.**  Through the whole function: two successful `read_asdf` calls on the same file with
+the same `colname` argument — any two `load` lists, any deprecated flags — read the same raw column, and every
+loadable column they both return has the same values. -/
+theorem read_values_independent (f : FileData) (cast : Rat → Rat) (colname : Option ColName)
+    (load load' : Option (List Col)) (lp lv lp' lv' : Option Bool) (o o' : OutcomeV)
+    (h : readAsdfV f cast colname load lp lv = .ok o) (h' : readAsdfV f cast colname load' lp' lv' = .ok o') :
+    o.colname = o'.colname ∧
+    ∀ c v v', (c, v) ∈ o.cols → (c, v') ∈ o'.cols → c ∈ loadable o.colname → v = v' := by
+  simp only [readAsdfV, bind, Except.bind] at h h'
+  cases hd : detect f.toDesc.present colname with
+  | error e => rw [hd] at h; cases h
+  | ok cn =>
+    rw [hd] at h h'
+    simp only at h h'
+    cases hr : f.raw cn with
+    | none => rw [hr] at h; cases h
+    | some raw =>
+      rw [hr] at h h'
+      simp only at h h'
+      cases ha : assembleV cn raw (resolve cn load lp lv).1 f.hdr cast with
+      | error e => rw [ha] at h; cases h
+      | ok cols =>
+      cases ha' : assembleV cn raw (resolve cn load' lp' lv').1 f.hdr cast with
+      | error e => rw [ha'] at h'; cases h'
+      | ok cols' =>
+        rw [ha] at h; rw [ha'] at h'
+        cases h; cases h'
+        refine ⟨rfl, ?_⟩
+        intro c v v' m m' hl
+        exact values_independent_of_selection cn raw _ _ f.hdr cast cols cols' ha ha' c v v' m m' hl
+
+/-- **values_shape.**  The value model refines the shape model: whenever `read_asdf` with values returns, the shape
+model (`readAsdf` on the file description, about which `columns_exact`, `rows_spec`, `read_spec` speak) returns too,
+with the same raw column, warning and metadata flag, the same column names in the same order, and every value list
+has exactly `rows` entries. -/
+theorem values_shape (f : FileData) (cast : Rat → Rat) (colname : Option ColName) (load : Option (List Col))
+    (lp lv : Option Bool) (ov : OutcomeV) (hv : readAsdfV f cast colname load lp lv = .ok ov) :
+    ∃ o, readAsdf f.toDesc colname load lp lv = .ok o ∧ o.colname = ov.colname ∧ o.warn = ov.warn ∧
+      o.addsSubsample = ov.addsSubsample ∧ ov.cols.map Prod.fst = o.table.cols ∧
+      ∀ c v, (c, v) ∈ ov.cols → v.length = o.table.rows := by
+  simp only [readAsdfV, bind, Except.bind] at hv
+  cases hd : detect f.toDesc.present colname with
+  | error e => rw [hd] at hv; cases hv
+  | ok cn =>
+    rw [hd] at hv
+    simp only at hv
+    cases hr : f.raw cn with
+    | none => rw [hr] at hv; cases hv
+    | some raw =>
+      rw [hr] at hv
+      simp only at hv
+      cases ha : assembleV cn raw (resolve cn load lp lv).1 f.hdr cast with
+      | error e => rw [ha] at hv; cases hv
+      | ok cols =>
+        rw [ha] at hv
+        cases hv
+        have hhas : f.toDesc.has cn = true := by
+          cases cn with
+          | known k => simp [FileDesc.has, FileData.toDesc, hr]
+          | other b => cases b <;> simp [FileDesc.has, FileData.toDesc, hr]
+        have hlen : f.toDesc.len cn = raw.len := by simp [FileData.toDesc, hr]
+        -- the table of the shape model
+        have key : ∃ t, assemble cn (resolve cn load lp lv).1 (f.toDesc.len cn) f.toDesc.npart = .ok t ∧
+            Shape cols t.cols t.rows := by
+          rw [hlen]
+          cases raw with
+          | rvint rows =>
+            cases cn with
+            | known k =>
+              cases k with
+              | rvint => exact shape_rvint rows _ _ cast _ cols ha
+              | pack9 => simp [assembleV] at ha
+              | packedpid => simp [assembleV] at ha
+              | pid => simp [assembleV] at ha
+            | other b => cases b <;> simp [assembleV] at ha
+          | pack9 recs =>
+            cases cn with
+            | known k =>
+              cases k with
+              | pack9 =>
+                have : f.toDesc.npart = (Pack9.nonHeaders recs).length := by
+                  simp [FileData.toDesc, hr, pack9Particles, Pack9.nonHeaders]
+                rw [this]
+                exact shape_pack9 recs _ _ cast cols ha
+              | rvint => simp [assembleV] at ha
+              | packedpid => simp [assembleV] at ha
+              | pid => simp [assembleV] at ha
+            | other b => cases b <;> simp [assembleV] at ha
+          | pids packed =>
+            by_cases hcn : cn.hasPid = true
+            · exact shape_pids cn hcn packed _ _ cast _ cols ha
+            · cases cn with
+              | known k => cases k <;> simp [ColName.hasPid] at hcn <;> simp [assembleV, ColName.hasPid] at ha
+              | other b => cases b <;> simp [ColName.hasPid] at hcn; simp [assembleV, ColName.hasPid] at ha
+        obtain ⟨t, ht, hs1, hs2⟩ := key
+        refine ⟨{ colname := cn, table := t, warn := (resolve cn load lp lv).2,
+                  addsSubsample := f.toDesc.lightcone && f.toDesc.summit }, ?_, rfl, rfl, rfl, hs1, hs2⟩
+        simp only [readAsdf, hd, bind, Except.bind, hhas, Bool.not_true, Bool.false_eq_true, if_false, ht]
+
+
+/-! non-vacuity: a two-particle PID column, a pack9 stream and an rvint column, each read with two different requests -/
+
+def exPids : Raw := .pids [0x0001000200030004#64, 0x0003000000050006#64]
+def exHdr : HdrVals := ⟨1000, 5/2, 64⟩
+
+example : assembleV (.known .packedpid) exPids [.pid, .aux] exHdr id =
+    .ok [(.aux, [.raw64 0x0001000200030004#64, .raw64 0x0003000000050006#64]),
+         (.pid, [.bp (.int 0x000200030004), .bp (.int 0x000000050006)])] := by decide +kernel
+
+example : (assembleV (.known .packedpid) exPids [.density, .pid, .lagr_pos] exHdr id).toOption.map
+      (fun cols => cols.filter (fun c => c.1 == Col.pid)) =
+    some [(.pid, [.bp (.int 0x000200030004), .bp (.int 0x000000050006)])] := by decide +kernel
+
+example : (assembleV (.known .pack9) (.pack9 Pack9.exStream) [.vel] exHdr id).toOption.map
+      (fun cols => cols.map (fun c => (c.1, c.2.length))) = some [(Col.vel, 3)] ∧
+    (assembleV (.known .pack9) (.pack9 Pack9.exStream) [.pos, .vel] exHdr id).toOption.map
+      (fun cols => cols.map (fun c => (c.1, c.2.length))) = some [(Col.pos, 3), (Col.vel, 3)] := by
+  constructor <;> decide +kernel
+
+example : Col.pid ∈ loadable (.known .packedpid) ∧ Col.vel ∈ loadable (.known .pack9) := by decide
+
+/-- a file with one raw column, for the theorems about `readAsdfV` -/
+def exFile : FileData :=
+  { raw := fun c => if c = .known .packedpid then some exPids else none, hdr := exHdr, lightcone := true, summit := true }
+
+example : (readAsdfV exFile id none (some [.aux, .pid]) none none).toOption.map (fun o => (o.cols.map Prod.fst, o.addsSubsample)) =
+    some ([.aux, .pid], true) := by decide +kernel
+example : (readAsdfV exFile id none none (some false) none).toOption.map (fun o => (o.cols.map Prod.fst, o.warn)) =
+    some ([.vel], some .future) := by decide +kernel
 
 end AbacusVerif.ReadAsdf
